@@ -22,6 +22,9 @@ DATA = {0: None, 1: {"a": [1, 2]}, 2: [1, [2, 3]]}
 # without being None (a payload of 0 is a payload; only None means "no data")
 DATA_TABLES = [DATA, {0: None, 1: 0, 2: []}, {0: None, 1: False, 2: {}}, {0: None, 1: 0.0, 2: ()}, {0: None, 1: [0], 2: 0j + 2}]
 NAMES = {1: "x", 2: "y"}
+# what the two abstract names stand for rotates with the pair as well: distinct names that print like structure (the
+# adjoint of the other name, a tensor of names, the unit) must stay distinct from the structure they resemble
+NAME_TABLES = [NAMES, {1: "x", 2: "x.l"}, {1: "x.r", 2: "x"}, {1: "x", 2: "x @ x"}, {1: "Ty()", 2: "x.l.l"}, {1: 1, 2: "1"}]
 
 
 def modules(cls):
@@ -41,7 +44,8 @@ def namespace(cls):
 
 def build_desc(cls, d, tab=0):
     """Real value for a descriptor of MC_Values, or None when the class has no such value."""
-    DATA = DATA_TABLES[tab]
+    DATA = DATA_TABLES[tab % len(DATA_TABLES)]
+    NAMES = NAME_TABLES[tab % len(NAME_TABLES)]
     m = modules(cls)
     if cls != "rigid" and (d["z"] != 0 or any(a[1] != 0 for a in d["dom"] + d["cod"])):
         return None
@@ -238,9 +242,10 @@ def run(tier, seed, t0):
         rest = [p for p in same_kind if not near(p)]
         keep += rnd.sample(rest, min(len(rest), 4000 if quick else 20000))
         rows = []
+        n_bubbles = 0
         for cls in ("cat", "monoidal", "rigid"):
             for pi, (a_d, b_d) in enumerate(keep):
-                tab = pi % len(DATA_TABLES)
+                tab = pi % (len(DATA_TABLES) * len(NAME_TABLES))      # 5 and 6 are coprime: every combination occurs
                 a, b = build_desc(cls, a_d, tab), build_desc(cls, b_d, tab)
                 if a is None or b is None:
                     continue
@@ -265,6 +270,18 @@ def run(tier, seed, t0):
                     except Exception:
                         extra["lk"] = 2
                 rows.append(observe(a, b, a_d, b_d, cls, extra))
+                if a_d["k"] == "box" and pi % 3 == 0:
+                    # bubbles are boxes too: equal exactly when their insides and their own types are
+                    try:
+                        variants = lambda v: (v.bubble(), v.bubble(dom=v.cod, cod=v.dom))
+                        for oa, ba in enumerate(variants(a)):
+                            for ob_, bb in enumerate(variants(b)):
+                                rows.append(observe(ba, bb, {"k": "bubble", "in": a_d, "o": oa if a_d["dom"] != a_d["cod"] else 0},
+                                                    {"k": "bubble", "in": b_d, "o": ob_ if b_d["dom"] != b_d["cod"] else 0}, cls,
+                                                    {"tab": tab, "oa": oa, "ob": ob_}))
+                                n_bubbles += 1
+                    except Exception:
+                        pass
         n_desc = len(rows)
         # part B: diagrams built along different paths
         from harness.adapters.free import MonoidalAdapter, RigidAdapter
@@ -370,7 +387,7 @@ def run(tier, seed, t0):
                            for t in (rows[0], rows[n_desc // 2], rows[-1])],
                "exhaustive": False,
                "model": {"modules": ["MC_Values", "MC_Monoidal", "MC_Eval"], "descriptor_pairs_in_model": n_pairs_model},
-               "replay": {"descriptor_pair_observations": n_desc, "diagram_states": n_diag, "path_twins": n_path,
+               "replay": {"descriptor_pair_observations": n_desc, "bubble_pairs": n_bubbles, "diagram_states": n_diag, "path_twins": n_path,
                           "observations": len(rows), "equal_pairs": sum(1 for t in rows if t["ab"]),
                           "by_class": dict(Counter(t["cls"] for t in rows))},
                "verdicts_by_clause": dict(clauses),
@@ -397,6 +414,11 @@ def replay(path):
         if t["pa"].get("k") in ("ob", "ty", "box"):
             a, b = build_desc(t["cls"], t["pa"], t.get("tab", 0)), build_desc(t["cls"], t["pb"], t.get("tab", 0))
             t = observe(a, b, t["pa"], t["pb"], t["cls"], {"tab": t.get("tab", 0)})
+        elif t["pa"].get("k") == "bubble":
+            a, b = build_desc(t["cls"], t["pa"]["in"], t.get("tab", 0)), build_desc(t["cls"], t["pb"]["in"], t.get("tab", 0))
+            a = a.bubble(dom=a.cod, cod=a.dom) if t.get("oa") else a.bubble()
+            b = b.bubble(dom=b.cod, cod=b.dom) if t.get("ob") else b.bubble()
+            t = observe(a, b, t["pa"], t["pb"], t["cls"], {"tab": t.get("tab", 0), "oa": t.get("oa", 0), "ob": t.get("ob", 0)})
         tf = os.path.join(work, "one.ndjson")
         core.write_ndjson(tf, [t])
         v = core.validate("Trace_Values", "JPair", tf, work, constants={"ZMax": 0, "MaxLen": 0})["verdicts"][0][0]
